@@ -307,6 +307,7 @@ theorem OInv_step (ss : SState) (os : OState) (e : Ev) (h : OInv ss os) (hs : (s
   | force a t x ok => exact ⟨h.obad, h.idle, h.passed, h.noid⟩
   | it u r => exact ⟨h.obad, h.idle, h.passed, h.noid⟩
   | err u => exact ⟨h.obad, h.idle, h.passed, h.noid⟩
+  | exec u r => exact ⟨h.obad, h.idle, h.passed, h.noid⟩
 
 theorem OInv_fold (l : List Ev) (ss : SState) (os : OState) (h : OInv ss os)
     (hs : (l.foldl structStep ss).bad = []) (ha : ∀ e ∈ l, Ev.isAbort e = false) :
@@ -368,6 +369,7 @@ theorem runOps_noerr (sc : Scripts) (hn : NoErr sc) (f : Nat) (w : World) (me : 
       | gc => apply hop; exact setCall_thrown w me true
       | it => apply hop; exact setCall_thrown w me false
       | err => exact absurd List.mem_cons_self ho
+      | exec => apply hop; rfl
 
 theorem scan_thrown (n : Nat) (w : World) : (scan n w).1.thrown = w.thrown := (scan_WLe n w).1.2
 
